@@ -100,6 +100,22 @@ def gen(ctx, rng):
         c = dict(y=[float(v) for v in y], w=[float(v) for v in w], lam=lam, exact=bool(exact),
                  coq_exact=bool(exact and n <= 24 and sum(1 for c in cases if c.get("coq_exact")) < nexact_coq))
         cases.append(c)
+    # interpolation regime with long zero-weight runs at an edge: the last (first) pivots become tiny (~ 3 lambda / k^3)
+    for it in range(120 if ctx.thorough else 40):
+        n = int(rng.integers(40, 160))
+        k = int(rng.integers(25, n - 8))
+        w = np.ones(n)
+        if it % 3 == 0:
+            w[:k] = 0
+        else:
+            w[n - k:] = 0
+        if it % 2:
+            w[rng.random(n) < 0.2] = 0
+        if (w > 0).sum() < 2:
+            w[:2] = 1.0
+        lam = float(10 ** rng.uniform(-6, -4))
+        y = rng.integers(-10000, 10001, size=n).astype(float)
+        cases.append(dict(y=[float(v) for v in y], w=[float(v) for v in w], lam=lam, exact=bool(n <= 90 and it % 4 == 0), coq_exact=False))
     return cases
 
 
